@@ -21,6 +21,7 @@ import Mathlib.Algebra.BigOperators.Field
 import QV.Model.States
 import QV.Lemmas.Basic
 import QV.Lemmas.Hilbert
+import QV.Lemmas.CallShape
 
 namespace QV.Props
 open QV Finset
@@ -157,5 +158,115 @@ example : let r : RBM ℝ 2 3 := ⟨fun i j => (i.val : ℝ) - j.val + 0.5, fun 
       fun i => if i = 0 then 0.7 else -0.3⟩
     Wave.probability r (fun _ => 1) 1 = ∑ hid : Fin 3 → Bool, jointWeight r (fun _ => 1) hid :=
   C01_hidden_marginal _ _
+
+
+/-! ### Extension round 2: "vector and batched call forms" — the code path of the 1-D forms is inside the model
+
+`BinaryRBM.effective_energy` and `PositiveWaveFunction.phase` are wrapped by `auto_unsqueeze_args` (qucumber/utils/__init__.py:20-43:
+`unsqueeze(0)` a 1-D argument, call, `squeeze_(0)`); `amplitude`, `phase`, `psi`, `probability` are elementwise on their results.
+`RBM.effectiveEnergy`, `Wave.amplitudeCall`, `phaseCall`, `psiCplxCall`, `psiPosCall`, `probabilityCall`, `phasePosCall` model these
+methods on TENSORS (`FT`, QV/Model/CallShape.lean); `CallFormsAgree f core` (QV/Lemmas/CallShape.lean) is the specification:
+1-D argument ↦ 0-dim result holding `core v`; argument with leading axes ↦ result of exactly that leading shape, entry by entry
+`core` of the row — where `core` is the per-state definition every theorem above is about. -/
+
+/-- **C01.9** (planned as `C01_batch_is_map`) every public evaluation method of both wavefunction states satisfies the call-form
+specification with the per-state definition of the theorems above as its `core` — for all architectures, parameters, batch sizes and
+ranks (vector `(n,)`, batch `(B, n)` incl. `B = 1`, rank-3 `(B1, B2, n)`, …).  A decorator that forgets `squeeze_(0)` (vector form
+of shape `(1,)`), squeezes unconditionally (a `(1, n)` batch losing its axis) or tests the wrong argument would change
+`autoUnsqueeze1` and break this. -/
+theorem C01_call_forms (am ph : RBM ℝ n h) (Z : ℝ) :
+    CallFormsAgree am.effectiveEnergy am.effEnergy
+      ∧ CallFormsAgree (Wave.amplitudeCall am) (Wave.amplitude am)
+      ∧ CallFormsAgree (Wave.phaseCall ph) (Wave.phase ph)
+      ∧ CallFormsAgree (Wave.psiCplxCall am ph) (Wave.psiCplx am ph)
+      ∧ CallFormsAgree (Wave.psiPosCall am) (Wave.psiPos am)
+      ∧ CallFormsAgree (fun v => Wave.probabilityCall am v Z) (fun v => Wave.probability am v Z) := by
+  have hE : ∀ r : RBM ℝ n h, CallFormsAgree r.effectiveEnergy r.effEnergy := fun r => callFormsAgree_map r.effEnergy
+  have hA : CallFormsAgree (Wave.amplitudeCall am) (Wave.amplitude am) := (hE am).map _
+  have hP : CallFormsAgree (Wave.phaseCall ph) (Wave.phase ph) := (hE ph).map _
+  exact ⟨hE am, hA, hP, hA.bzip hP _, hA.map _, (hE am).map _⟩
+
+/-- **C01.9'** the statement in the words of the work plan: the vector form on `v` returns a 0-dim tensor, the batched form on a
+`(B, n)` batch a `(B,)` tensor, and the former IS entry `i` of the latter for any batch whose row `i` is `v` — for effective energy,
+amplitude, phase, psi (complex pair) and probability. -/
+theorem C01_vector_form_is_row (am ph : RBM ℝ n h) (Z : ℝ) (v : Fin n → ℝ) (B : ℕ) (vs : ℕ → Fin n → ℝ)
+    (i : ℕ) (hi : i < B) (hv : vs i = v) :
+    (∃ o oB, am.effectiveEnergy (.scalar v) = .ok o ∧ am.effectiveEnergy (.ofRows B vs) = .ok oB ∧ o.shape = [] ∧ oB.shape = [B]
+        ∧ o.get [] = am.effEnergy v ∧ oB.get [i] = o.get [])
+      ∧ (∃ o oB, Wave.amplitudeCall am (.scalar v) = .ok o ∧ Wave.amplitudeCall am (.ofRows B vs) = .ok oB ∧ o.shape = []
+        ∧ oB.shape = [B] ∧ o.get [] = Wave.amplitude am v ∧ oB.get [i] = o.get [])
+      ∧ (∃ o oB, Wave.phaseCall ph (.scalar v) = .ok o ∧ Wave.phaseCall ph (.ofRows B vs) = .ok oB ∧ o.shape = []
+        ∧ oB.shape = [B] ∧ o.get [] = Wave.phase ph v ∧ oB.get [i] = o.get [])
+      ∧ (∃ o oB, Wave.psiCplxCall am ph (.scalar v) = .ok o ∧ Wave.psiCplxCall am ph (.ofRows B vs) = .ok oB ∧ o.shape = []
+        ∧ oB.shape = [B] ∧ o.get [] = Wave.psiCplx am ph v ∧ oB.get [i] = o.get [])
+      ∧ (∃ o oB, Wave.psiPosCall am (.scalar v) = .ok o ∧ Wave.psiPosCall am (.ofRows B vs) = .ok oB ∧ o.shape = []
+        ∧ oB.shape = [B] ∧ o.get [] = Wave.psiPos am v ∧ oB.get [i] = o.get [])
+      ∧ (∃ o oB, Wave.probabilityCall am (.scalar v) Z = .ok o ∧ Wave.probabilityCall am (.ofRows B vs) Z = .ok oB ∧ o.shape = []
+        ∧ oB.shape = [B] ∧ o.get [] = Wave.probability am v Z ∧ oB.get [i] = o.get []) := by
+  obtain ⟨h1, h2, h3, h4, h5, h6⟩ := C01_call_forms am ph Z
+  have key : ∀ {β : Type} {f : FT (Fin n → ℝ) → Except PyErr (FT β)} {core : (Fin n → ℝ) → β}, CallFormsAgree f core →
+      ∃ o oB, f (.scalar v) = .ok o ∧ f (.ofRows B vs) = .ok oB ∧ o.shape = [] ∧ oB.shape = [B] ∧ o.get [] = core v
+        ∧ oB.get [i] = o.get [] := fun hf => by
+    obtain ⟨o, oB, a1, a2, a3, a4, a5, _, a7⟩ := hf.vector_is_row v B vs
+    exact ⟨o, oB, a1, a2, a3, a4, a5, a7 i hi hv⟩
+  exact ⟨key h1, key h2, key h3, key h4, key h5, key h6⟩
+
+/-- **C01.10** `PositiveWaveFunction.phase` (zeros of the shape of the batch) and the OVERRIDE `PositiveWaveFunction.psi`
+(`make_complex(amplitude)`) against the base-class formula `amplitude · (cos, sin)(phase)` (wavefunction.py:62-81) that the override
+replaces: for the vector form and every `(B, n)` batch the decorated `phase` returns zeros of shape `()` / `(B,)`, the base-class `psi`
+evaluated with that `phase` accepts the call, has the same shape as the override and the same entries, and both are the per-state
+`Wave.psiPos` (real part the amplitude, imaginary part 0: "the positive state is real").  A `phase` that returned a non-zero constant,
+or zeros of another shape (`(B, 1)`: the base formula would broadcast to `(B, B)`), would break this.  (Rank-3 arguments:
+`phasePosCall_rank3`, scope note C01-1.) -/
+theorem C01_psiPos_polar (am : RBM ℝ n h) (v : Fin n → ℝ) (B : ℕ) (vs : ℕ → Fin n → ℝ) :
+    Wave.psiPos am v = (Wave.amplitude am v * Real.cos (Wave.phasePos v), Wave.amplitude am v * Real.sin (Wave.phasePos v))
+      ∧ Wave.phasePosCall (FT.scalar v) = .ok (FT.scalar 0)
+      ∧ (∃ p, Wave.phasePosCall (FT.ofRows B vs) = .ok p ∧ p.shape = [B] ∧ ∀ i, p.get [i] = 0)
+      ∧ (∃ o o', Wave.psiPosCall am (.scalar v) = .ok o ∧ Wave.psiBase am Wave.phasePosCall (.scalar v) = .ok o'
+          ∧ o.shape = [] ∧ o'.shape = [] ∧ o.get [] = Wave.psiPos am v ∧ o'.get [] = o.get [])
+      ∧ (∃ o o', Wave.psiPosCall am (.ofRows B vs) = .ok o ∧ Wave.psiBase am Wave.phasePosCall (.ofRows B vs) = .ok o'
+          ∧ o.shape = [B] ∧ o'.shape = [B] ∧ ∀ i, i < B → o.get [i] = Wave.psiPos am (vs i) ∧ o'.get [i] = o.get [i]) := by
+  obtain ⟨_, hA, _, _, hPos, _⟩ := C01_call_forms am am 1
+  have hpolar : ∀ w : Fin n → ℝ, Wave.psiPos am w
+      = (Wave.amplitude am w * Real.cos (Wave.phasePos w), Wave.amplitude am w * Real.sin (Wave.phasePos w)) := by
+    intro w; simp [Wave.psiPos, Wave.phasePos]
+  refine ⟨hpolar v, Wave.phasePosCall_scalar v, Wave.phasePosCall_batch B vs, ?_, ?_⟩
+  · obtain ⟨o, ho, hs, hg⟩ := hPos.1 v
+    obtain ⟨u, hu, hus, hug⟩ := hA.1 v
+    have hb : ∃ o', Wave.psiBase am Wave.phasePosCall (.scalar v) = .ok o' ∧ o'.shape = [] ∧ o'.get [] = Wave.psiPos am v := by
+      rw [Wave.psiBase, hu, Wave.phasePosCall_scalar]
+      simp only [FT.bzipE, FT.bzip, hus, FT.scalar, bs_nil_nil]
+      exact ⟨_, rfl, rfl, by simp [Cplx.bidx, hug, Wave.psiPos]⟩
+    obtain ⟨o', ho', hs', hg'⟩ := hb
+    exact ⟨o, o', ho, ho', hs, hs', hg, by rw [hg, hg']⟩
+  · obtain ⟨o, ho, hs, hg⟩ := hPos.2 (.ofRows B vs) (by simp [FT.ofRows])
+    obtain ⟨u, hu, hus, hug⟩ := hA.2 (.ofRows B vs) (by simp [FT.ofRows])
+    obtain ⟨p, hp, hps, hpg⟩ := Wave.phasePosCall_batch (α := ℝ) B vs
+    have hin : ∀ i, i < B → InRange [i] (FT.ofRows B vs).shape := fun i hi => by simp [FT.ofRows, InRange, hi]
+    have hus' : u.shape = [B] := by simpa [FT.ofRows] using hus
+    have hb : ∃ o', Wave.psiBase am Wave.phasePosCall (.ofRows B vs) = .ok o' ∧ o'.shape = [B]
+        ∧ ∀ i, i < B → o'.get [i] = Wave.psiPos am (vs i) := by
+      rw [Wave.psiBase, hu, hp]
+      simp only [FT.bzipE, FT.bzip, hus', hps, bs_same]
+      refine ⟨_, rfl, rfl, fun i hi => ?_⟩
+      have h2 := hug [i] (hin i hi)
+      simp only [FT.ofRows] at h2
+      simp [Cplx.bidx, bsel_lt hi, h2, hpg, Wave.psiPos]
+    obtain ⟨o', ho', hs', hg'⟩ := hb
+    refine ⟨o, o', ho, ho', by simpa [FT.ofRows] using hs, hs', fun i hi => ?_⟩
+    have h1 := hg [i] (hin i hi)
+    simp only [FT.ofRows] at h1
+    exact ⟨by simpa using h1, by rw [hg' i hi]; simpa using h1.symm⟩
+
+/-- non-vacuity of the call-form theorems: a concrete 2×3 network, a 1-D argument and a 3-row batch whose middle row is that
+argument — the vector form of `psi` of the complex state is entry 1 of the batched form. -/
+example : let r : RBM ℝ 2 3 := ⟨fun i j => (i.val : ℝ) - j.val + 0.5, fun j => if j = 0 then -1.5 else 2,
+      fun i => if i = 0 then 0.7 else -0.3⟩
+    let v : Fin 2 → ℝ := fun j => if j = 0 then 1 else 0
+    ∃ o oB, Wave.psiCplxCall r r (.scalar v) = .ok o ∧
+      Wave.psiCplxCall r r (.ofRows 3 (fun i => if i = 1 then v else fun _ => 1)) = .ok oB ∧ o.shape = [] ∧ oB.shape = [3]
+        ∧ o.get [] = Wave.psiCplx r r v ∧ oB.get [1] = o.get [] := by
+  intro r v
+  exact (C01_vector_form_is_row r r 1 v 3 _ 1 (by norm_num) (by simp)).2.2.2.1
 
 end QV.Props
